@@ -18,12 +18,14 @@ from mc.engine import HarnessError, bad, ok, skip
 PROPERTY = "C08"
 LEVEL = "exploration"
 TECHNIQUE = "bounded exhaustive enumeration of ordered operator pairs x wire placements; reported commutation vs. commutator of reference matrices"
-LEVEL_TEXT = ("Every ordered pair from ~150 (quick; ~230 thorough) instances of all catalogue gates, matrix operators, observables, arithmetic "
-              "operators and meta operations (rotations at generic, pi, 2pi, 4pi, 0 and at every angle row that Rot/U2/U3/CRot.simplify "
-              "special-cases), plus every Adjoint/Pow/Controlled wrapper name against a 24-operator probe set in both argument orders, is "
-              "evaluated on every injective placement of the second operator on wires {0,1,2,3} sharing a wire with the first; whenever "
-              "is_commuting answers True the commutator of the embedded reference matrices must vanish (1e-7). All pairs of Pauli words of "
-              "length <=2 (thorough 3) in four construction forms must be answered exactly.")
+LEVEL_TEXT = ("261 (thorough 385) instances of all ~110 catalogue gates, matrix operators, observables, arithmetic operators, meta operations "
+              "and 4 templates (rotations at generic, pi, 2pi, 4pi, 0 and at every angle row that Rot/U2/U3/CRot.simplify special-cases): all "
+              "ordered pairs of one generic instance per name, every other instance against a probe set (quick 10 operators; thorough: against "
+              "every generic instance, plus boundary x boundary among the lookup-table names), and ~300 (thorough ~1100) instances of every "
+              "Adjoint/Pow/Controlled wrapper name against the probes in both argument orders - each on every injective placement of the "
+              "second operator on wires {0,1,2,3} sharing a wire with the first; whenever is_commuting answers True the commutator of the "
+              "embedded reference matrices must vanish (1e-7). All pairs of Pauli words of length <=2 (thorough 3) in four construction "
+              "forms must be answered exactly (cross-checked against the symplectic parity).")
 LEVEL_NOTE = ("Reference matrices: mc.refgates formulas where the gate is listed, otherwise qp.matrix(op) (trusting C01/C02); embedding and "
               "commutator by the harness. Pairs where an operand has no matrix (Barrier, state preparations, mid-circuit measurements) or "
               "where is_commuting raises are counted, not judged: the property only constrains True answers. Completeness (False although "
